@@ -341,8 +341,9 @@ def run(ctx):
 LEVEL_TEXT = ("Lean 4 proofs on the Config model extended by the executor's per-task step (load_collection of the namespace "
               "configuration, load_shell_env, then the body's edits): task_sees_own_ns_plus_journal (the view a task starts "
               "with is the journal of all earlier edits replayed over the merge with ITS collection level and ITS environment "
-              "level, for every sequence of tasks and edit scripts), session_never_fails, and "
-              "called_as_none_counterexample for pre/post/default tasks; tied to the real Executor + Config + Collection by "
+              "level, for every sequence of tasks and edit scripts), named_task_sees_own_namespace, session_never_fails, and - "
+              "making the boundary of the known finding explicit - pre_post_task_sees_root_only / "
+              "unnamed_task_gets_root_settings / called_as_none_counterexample for pre/post/default tasks; tied to the real Executor + Config + Collection by "
               "running generated sessions through both and by a direct oracle")
 TECHNIQUE = ("Lean 4 theorems over all task sequences x edit scripts (instance of the C06 journal theorem with the base "
              "swapped per task) + real Executor sessions vs model + reference-dict oracle")
